@@ -453,8 +453,33 @@ def gen_case(rng, permit, n_steps):
             return [k, objs_for(q)]
         return [k, [rng.randrange(nobj) for _ in range(rng.choice([0, 1, 2]))]]
 
+    # in the cases that may overwrite adapters (F11 shape): one deliberate overwrite of a live key by an
+    # EQUAL but distinct factory (distinguishable by what it returns), queried right away
+    overwrite_at = rng.randrange(n_steps) if permit == "F11" and rng.random() < 0.7 else None
+
     for si in range(n_steps):
         nq = 12 if si == n_steps - 1 else 3
+        if si == overwrite_at and not multi:
+            a_, b_ = rng.choice([([1, 1], [2, 1]), ([2, 1], [1, 1]), ([5, 5], [6, 5]), ([6, 5], [5, 5])])
+            q_ = [rng.choice(oprov[rng.randrange(nobj)]) for _ in range(rng.choice([1, 1, 2]))]
+            p_, n_, i_ = related_iface(), rng.choice(names), rng.choice(infos)
+            pair = [["regA", a_, q_, p_, n_, i_, "plain", True], ["regA", b_, q_, p_, n_, i_, "plain", rng.random() > 0.2]]
+            trial = copy.deepcopy(led)
+            ok_shape = True
+            for o_ in pair:
+                sh = trial.shapes_of(o_)
+                ok_shape = ok_shape and sh <= {"F11"}
+                trial.apply(o_)
+            if ok_shape:
+                leds[0] = led = trial
+                seen_prov.append(p_)
+                for o_ in pair:
+                    os_ = objs_for(q_)
+                    qs = [["multi", os_, anc_iface(p_), n_], ["getAdapters", os_, anc_iface(p_)], ["multi", objs_for(q_), p_, n_]]
+                    if len(q_) == 1:
+                        qs.append(["adapter", os_[0], p_, n_])
+                    steps.append({"op": o_, "on": 0, "queries": qs, "qon": [0] * len(qs)})
+                continue
         if multi:
             r = rng.random()
             struct = None
